@@ -354,3 +354,809 @@ Proof.
   rewrite Forall_forall in *. intros b Hb. apply in_map_iff in Hb. destruct Hb as [[j b'] [<- Hb]].
   specialize (F _ Hb). destruct x as [i a]. unfold ref_le; cbn in *. lia.
 Qed.
+
+(* ================================================================ runs *)
+(* run-length blocks (key, count-1) of the meshID sequence *)
+Fixpoint expand (bs : list (Z * nat)) : list Z :=
+  match bs with [] => [] | (k, c) :: bs' => repeat k (S c) ++ expand bs' end.
+Fixpoint adjdist (l : list Z) : Prop :=
+  match l with [] => True | a :: l' => (match l' with [] => True | b :: _ => a <> b end) /\ adjdist l' end.
+
+Lemma blocks_exist : forall ids, exists bs, ids = expand bs /\ adjdist (map fst bs) /\
+   (match ids, bs with [], [] => True | a :: _, (k, _) :: _ => a = k | _, _ => False end).
+Proof.
+  induction ids as [|a ids IH]; [exists []; cbn; auto|].
+  destruct IH as [bs [E [A Hd]]].
+  destruct ids as [|b ids].
+  - destruct bs; [|destruct p; contradiction]. exists [(a, 0%nat)]. cbn. auto.
+  - destruct bs as [|[k c] bs]; [contradiction|]. subst k.
+    destruct (Z.eq_dec a b) as [->|Hne].
+    + exists ((b, S c) :: bs). cbn in *. rewrite E. auto.
+    + exists ((a, 0%nat) :: (b, c) :: bs). cbn in *. rewrite E. auto.
+Qed.
+
+Section RunFacts.
+  Context {T : Type}.
+  Variable tid : T.
+  Notation rmap := (zmap (Relation T)).
+
+  Definition find_or_default (k : Z) (m : rmap) : Relation T :=
+    match m_find k m with Some r => r | None => default_rel tid end.
+
+  Fixpoint mk_runs (m : rmap) (tri : Z) (bs : list (Z * nat)) : list (Run T) :=
+    match bs with
+    | [] => []
+    | (k, c) :: bs' => mkRun tri k (find_or_default k m) :: mk_runs (m_erase k m) (tri + Z.of_nat (S c)) bs'
+    end.
+  Definition erase_all (ks : list Z) (m : rmap) : rmap := fold_left (fun a k => m_erase k a) ks m.
+
+  Lemma run_loop_same : forall refs1 refs2 (m : rmap) k tri,
+    Forall (fun r => meshID r = k) refs1 ->
+    run_loop tid m k tri (refs1 ++ refs2) = run_loop tid m k (tri + Z.of_nat (length refs1)) refs2.
+  Proof.
+    induction refs1 as [|r refs1 IH]; intros refs2 m k tri F.
+    - cbn. f_equal. lia.
+    - inversion F; subst. cbn [app run_loop]. rewrite Z.eqb_refl. rewrite IH by assumption.
+      f_equal. cbn [length]. lia.
+  Qed.
+
+  Lemma map_eq_repeat : forall (refs : list TriRef) k n, map meshID refs = repeat k n ->
+    Forall (fun r => meshID r = k) refs /\ length refs = n.
+  Proof.
+    induction refs as [|r refs IH]; intros k n H; destruct n; cbn in H; try discriminate; [auto|].
+    inversion H. destruct (IH _ _ H2). split; [constructor; auto|cbn; congruence].
+  Qed.
+
+  Lemma run_loop_blocks : forall bs refs (m : rmap) last tri,
+    map meshID refs = expand bs -> adjdist (last :: map fst bs) ->
+    run_loop tid m last tri refs = (mk_runs m tri bs, erase_all (map fst bs) m).
+  Proof.
+    induction bs as [|[k c] bs IH]; intros refs m last tri E A.
+    - cbn in E. apply map_eq_nil in E. subst. reflexivity.
+    - cbn [expand] in E. apply map_eq_app in E. destruct E as [r1 [r2 [-> [E1 E2]]]].
+      destruct r1 as [|r r1]; [discriminate|]. cbn [repeat map] in E1. inversion E1 as [[Hk E1']].
+      apply map_eq_repeat in E1'. destruct E1' as [F L].
+      cbn [map fst adjdist] in A. destruct A as [Hne A].
+      cbn [app run_loop]. rewrite Hk.
+      destruct (k =? last) eqn:Ek; [apply Z.eqb_eq in Ek; congruence|].
+      rewrite run_loop_same by (rewrite <- Hk; exact F).
+      rewrite (IH r2 (m_erase k m) k) by (auto; cbn [adjdist]; exact A).
+      cbn [mk_runs map fst]. unfold find_or_default, erase_all. cbn [fold_left].
+      replace (tri + 1 + Z.of_nat (length r1)) with (tri + Z.of_nat (S c)) by lia. reflexivity.
+  Qed.
+
+  (* ---- extents of the runs *)
+  Lemma extents_nil : forall n, extents (T:=T) [] n = [].
+  Proof. reflexivity. Qed.
+  Lemma extents_one : forall (r : Run T) n, extents [r] n = [(r, n)].
+  Proof. reflexivity. Qed.
+  Lemma extents_cons2 : forall (r r' : Run T) rs n, extents (r :: r' :: rs) n = (r, r_start r') :: extents (r' :: rs) n.
+  Proof. reflexivity. Qed.
+
+  Lemma extents_all_n : forall (rs : list (Run T)) n, Forall (fun r => r_start r = n) rs ->
+    extents rs n = map (fun r => (r, n)) rs.
+  Proof.
+    induction rs as [|r rs IH]; intros n F; [reflexivity|].
+    inversion F as [|? ? Hr F']; subst. destruct rs as [|r' rs]; [reflexivity|].
+    rewrite extents_cons2, IH by assumption. inversion F'; subst. cbn [map]. congruence.
+  Qed.
+
+  Fixpoint total (tri : Z) (bs : list (Z * nat)) : Z :=
+    match bs with [] => tri | (_, c) :: bs' => total (tri + Z.of_nat (S c)) bs' end.
+  Fixpoint mk_ext (m : rmap) (tri : Z) (bs : list (Z * nat)) : list (Run T * Z) :=
+    match bs with
+    | [] => []
+    | (k, c) :: bs' => (mkRun tri k (find_or_default k m), tri + Z.of_nat (S c))
+                       :: mk_ext (m_erase k m) (tri + Z.of_nat (S c)) bs'
+    end.
+
+  Lemma total_expand : forall bs tri, total tri bs = tri + Z.of_nat (length (expand bs)).
+  Proof.
+    induction bs as [|[k c] bs IH]; intros tri; cbn [total expand]; [cbn; lia|].
+    rewrite IH, app_length, repeat_length. lia.
+  Qed.
+
+  Lemma ext_runs : forall bs (m : rmap) tri rs2 n,
+    Forall (fun r => r_start r = n) rs2 -> total tri bs = n ->
+    extents (mk_runs m tri bs ++ rs2) n = mk_ext m tri bs ++ map (fun r => (r, n)) rs2.
+  Proof.
+    induction bs as [|[k c] bs IH]; intros m tri rs2 n F Ht.
+    - cbn. now apply extents_all_n.
+    - cbn [mk_runs mk_ext total app] in *.
+      specialize (IH (m_erase k m) (tri + Z.of_nat (S c)) rs2 n F Ht).
+      destruct (mk_runs (m_erase k m) (tri + Z.of_nat (S c)) bs ++ rs2) as [|r' rest] eqn:E.
+      + destruct bs as [|[k' c'] bs]; [|discriminate]. cbn in E. subst rs2. cbn in *. subst n. reflexivity.
+      + rewrite extents_cons2, IH. f_equal. f_equal.
+        destruct bs as [|[k' c'] bs].
+        * cbn in E. subst rs2. inversion F as [|? ? Hr' F']. cbn in Ht. cbn. lia.
+        * cbn in E. inversion E. reflexivity.
+  Qed.
+
+  Lemma mk_ext_elems : forall bs (m : rmap) tri, NoDup (map fst bs) ->
+    Forall (fun re => In (r_key (fst re)) (map fst bs) /\ r_rel (fst re) = find_or_default (r_key (fst re)) m /\
+                      r_start (fst re) < snd re /\ tri <= r_start (fst re)) (mk_ext m tri bs).
+  Proof.
+    induction bs as [|[k c] bs IH]; intros m tri ND; [constructor|].
+    cbn [map fst] in ND. inversion ND as [|? ? Hn ND']; subst.
+    cbn [mk_ext]. constructor.
+    - cbn. split; [now left|]. split; [reflexivity|lia].
+    - eapply Forall_impl; [|apply IH; exact ND']. intros [r e] [Hk [Hr [Hs Ht]]]. cbn [fst snd] in *.
+      repeat split; [now right| |assumption|lia].
+      rewrite Hr. unfold find_or_default. rewrite m_find_erase_neq; [reflexivity|]. intros Heq. rewrite Heq in Hk. contradiction.
+  Qed.
+
+  Lemma mk_ext_own : forall bs (m : rmap) tri t id, nth_error (expand bs) t = Some id ->
+    exists run e, In (run, e) (mk_ext m tri bs) /\ r_start run <= tri + Z.of_nat t < e /\ r_key run = id.
+  Proof.
+    induction bs as [|[k c] bs IH]; intros m tri t id H.
+    - destruct t; discriminate.
+    - cbn [expand] in H. destruct (Nat.lt_ge_cases t (S c)) as [Hlt|Hge].
+      + rewrite nth_error_app1 in H by (rewrite repeat_length; exact Hlt).
+        apply nth_error_In, repeat_spec in H. subst id.
+        eexists; eexists; split; [cbn [mk_ext]; left; reflexivity|]. cbn. lia.
+      + rewrite nth_error_app2 in H by (rewrite repeat_length; exact Hge). rewrite repeat_length in H.
+        destruct (IH (m_erase k m) (tri + Z.of_nat (S c)) _ _ H) as [run [e [Hin [Hr Hk]]]].
+        exists run, e. split; [cbn [mk_ext]; now right|]. split; [lia|exact Hk].
+  Qed.
+
+  Definition run_nonempty (re : Run T * Z) : Prop := r_start (fst re) < snd re.
+  (* order between an earlier run a and a later run b of the export *)
+  Definition run_order (a b : Run T * Z) : Prop :=
+    (run_nonempty a -> run_nonempty b ->
+       rOriginalID (r_rel (fst a)) < rOriginalID (r_rel (fst b)) \/
+       (rOriginalID (r_rel (fst a)) = rOriginalID (r_rel (fst b)) /\ r_key (fst a) < r_key (fst b))) /\
+    (~ run_nonempty a -> ~ run_nonempty b /\ r_key (fst a) < r_key (fst b)).
+
+  Definition klt (orig : Z -> Z) (a b : Z) : Prop := orig a < orig b \/ (orig a = orig b /\ a < b).
+  Definition kle (orig : Z -> Z) (a b : Z) : Prop := orig a < orig b \/ (orig a = orig b /\ a <= b).
+
+  Lemma mk_ext_sorted : forall bs (m0 m : rmap) tri,
+    NoDup (map fst bs) ->
+    (forall k, In k (map fst bs) -> find_or_default k m = find_or_default k m0) ->
+    StronglySorted (klt (fun k => rOriginalID (find_or_default k m0))) (map fst bs) ->
+    StronglySorted run_order (mk_ext m tri bs).
+  Proof.
+    induction bs as [|[k c] bs IH]; intros m0 m tri ND Hm HS; [constructor|].
+    cbn [map fst] in *. inversion ND as [|? ? Hn ND']; subst. inversion HS as [|? ? S' F]; subst.
+    cbn [mk_ext]. constructor.
+    - apply (IH m0); auto. intros k' Hk'. unfold find_or_default. rewrite m_find_erase_neq.
+      + apply Hm. now right.
+      + intros ->. contradiction.
+    - pose proof (mk_ext_elems bs (m_erase k m) (tri + Z.of_nat (S c)) ND') as E.
+      rewrite Forall_forall in *. intros [r e] Hin. destruct (E _ Hin) as [Hk [Hr [Hs Ht]]]. cbn [fst snd] in *.
+      unfold run_order, run_nonempty. cbn [fst snd r_start r_key r_rel]. split; [|lia].
+      intros _ _. specialize (F _ Hk). unfold klt in F.
+      rewrite (Hm k) by now left.
+      assert (Hrel : r_rel r = find_or_default (r_key r) m0).
+      { rewrite Hr. unfold find_or_default. rewrite m_find_erase_neq; [apply Hm; now right|]. intros Heq; rewrite Heq in Hk; contradiction. }
+      rewrite Hrel. exact F.
+  Qed.
+
+  Lemma mk_runs_keys : forall bs (m : rmap) tri, map r_key (mk_runs m tri bs) = map fst bs.
+  Proof. induction bs as [|[k c] bs IH]; intros; cbn; [reflexivity|now rewrite IH]. Qed.
+  Lemma mk_ext_runs : forall bs (m : rmap) tri, map fst (mk_ext m tri bs) = mk_runs m tri bs.
+  Proof. induction bs as [|[k c] bs IH]; intros; cbn; [reflexivity|now rewrite IH]. Qed.
+
+  Lemma erase_all_ok : forall ks (m : rmap), map_ok m -> map_ok (erase_all ks m).
+  Proof. induction ks; intros m H; cbn; [exact H|]. apply IHks. now apply m_erase_asc. Qed.
+  Lemma erase_all_incl : forall ks (m : rmap) x, In x (erase_all ks m) -> In x m.
+  Proof. induction ks; intros m x H; cbn in *; [exact H|]. eapply m_erase_incl. apply IHks. exact H. Qed.
+
+  Lemma erase_all_keys_perm : forall ks (m : rmap), NoDup ks -> (forall k, In k ks -> In k (m_keys m)) ->
+    Permutation (ks ++ m_keys (erase_all ks m)) (m_keys m).
+  Proof.
+    induction ks as [|k ks IH]; intros m ND H; [reflexivity|].
+    inversion ND as [|? ? Hn ND']; subst. cbn [app erase_all fold_left].
+    etransitivity; [|apply (m_erase_keys_perm m k); apply H; now left].
+    constructor. apply IH; [exact ND'|].
+    intros k' Hk'. assert (In k' (m_keys m)) by (apply H; now right).
+    apply m_find_keys. apply m_find_keys in H0. destruct H0 as [v Hv]. exists v.
+    rewrite m_find_erase_neq; [exact Hv|]. intros ->; contradiction.
+  Qed.
+
+  Lemma expand_keys_in : forall bs k, In k (map fst bs) -> In k (expand bs).
+  Proof.
+    induction bs as [|[k' c] bs IH]; intros k H; [contradiction|]. cbn [expand]. cbn in H.
+    apply in_or_app. destruct H as [->|H]; [left; now left|right; auto].
+  Qed.
+
+  Lemma SS_app_inv_r : forall A (R : A -> A -> Prop) l1 l2, StronglySorted R (l1 ++ l2) -> StronglySorted R l2.
+  Proof. induction l1; intros l2 H; [exact H|]. inversion H; subst. auto. Qed.
+
+  Lemma expand_sorted_keys : forall (R : Z -> Z -> Prop) bs, StronglySorted R (expand bs) -> StronglySorted R (map fst bs).
+  Proof.
+    induction bs as [|[k c] bs IH]; intros H; [constructor|].
+    cbn [expand repeat app] in H. inversion H as [|? ? H' F]; subst.
+    apply SS_app_inv_r in H'. cbn [map fst]. constructor; [auto|].
+    rewrite Forall_forall in *. intros x Hx. apply F. apply in_or_app. right. now apply expand_keys_in.
+  Qed.
+
+  Lemma sorted_strict : forall orig l, Sorted (kle orig) l -> adjdist l -> Sorted (klt orig) l.
+  Proof.
+    induction l as [|a l IH]; intros HS A; [constructor|].
+    inversion HS as [|? ? HS' Hd]; subst. destruct A as [Hne A]. constructor; [auto|].
+    destruct l as [|b l]; constructor. inversion Hd; subst. unfold kle, klt in *. lia.
+  Qed.
+
+  Lemma klt_trans : forall orig, Relations_1.Transitive (klt orig).
+  Proof. intros orig a b c; unfold klt; lia. Qed.
+
+  Lemma klt_NoDup : forall orig l, StronglySorted (klt orig) l -> NoDup l.
+  Proof.
+    induction l as [|a l IH]; intros H; [constructor|]. inversion H as [|? ? H' F]; subst.
+    constructor; [|auto]. intro Hin. rewrite Forall_forall in F. specialize (F _ Hin). unfold klt in F. lia.
+  Qed.
+
+  Lemma StronglySorted_app : forall A (R : A -> A -> Prop) l1 l2,
+    StronglySorted R l1 -> StronglySorted R l2 -> (forall a b, In a l1 -> In b l2 -> R a b) ->
+    StronglySorted R (l1 ++ l2).
+  Proof.
+    induction l1 as [|x l1 IH]; intros l2 S1 S2 H; [exact S2|].
+    inversion S1 as [|? ? S1' F]; subst. cbn. constructor.
+    - apply IH; auto. intros; apply H; auto. now right.
+    - apply Forall_app. split; [exact F|]. rewrite Forall_forall. intros b Hb. apply H; auto. now left.
+  Qed.
+
+  Lemma asc_SS : forall l, asc l -> StronglySorted Z.lt l.
+  Proof.
+    induction l as [|a l IH]; intros H; [constructor|].
+    constructor; [apply IH; eapply asc_tl; eauto|]. now apply asc_lb.
+  Qed.
+
+  Definition rel_consistent (m : rmap) (refs : list TriRef) : Prop :=
+    Forall (fun r => 0 <= meshID r /\ exists rel, m_find (meshID r) m = Some rel /\ rOriginalID rel = originalID r) refs.
+
+  Lemma sorted_ids_kle : forall (m : rmap) (l : list TriRef), rel_consistent m l -> StronglySorted ref_le l ->
+    StronglySorted (kle (fun k => rOriginalID (find_or_default k m))) (map meshID l).
+  Proof.
+    intros m l C HS. induction HS as [|a l HS IH F]; [constructor|].
+    inversion C as [|? ? Ca C']; subst. cbn [map]. constructor; [auto|].
+    rewrite Forall_forall in *. intros x Hx. apply in_map_iff in Hx. destruct Hx as [b [<- Hb]].
+    specialize (F _ Hb). specialize (C' _ Hb). destruct Ca as [_ [ra [Fa Oa]]]. destruct C' as [_ [rb [Fb Ob]]].
+    unfold kle, find_or_default. rewrite Fa, Fb, Oa, Ob. exact F.
+  Qed.
+
+  Theorem runs_partition_main : forall (m : rmap) (refs : list TriRef),
+    map_ok m -> rel_consistent m refs ->
+    let sorted := map snd (sort_tris false refs) in
+    let n := Z.of_nat (length refs) in
+    let rs := all_runs tid m sorted in
+       Permutation (map r_key rs) (m_keys m)
+    /\ Forall (fun r => m_find (r_key r) m = Some (r_rel r)) rs
+    /\ (match rs with [] => n = 0 | r :: _ => r_start r = 0 end)
+    /\ Forall (fun re => r_start (fst re) <= snd re) (extents rs n)
+    /\ (forall t r, nth_error sorted t = Some r ->
+          exists run e, In (run, e) (extents rs n) /\ r_start run <= Z.of_nat t < e /\ r_key run = meshID r)
+    /\ StronglySorted run_order (extents rs n).
+  Proof.
+    intros m refs Hm C sorted n rs.
+    assert (Cs : rel_consistent m sorted).
+    { unfold rel_consistent. eapply Permutation_Forall; [apply Permutation_sym, (sort_tris_refs false)|exact C]. }
+    assert (Ln : Z.of_nat (length sorted) = n).
+    { unfold sorted, n. now rewrite map_length, sort_tris_length. }
+    destruct (blocks_exist (map meshID sorted)) as [bs [E [A Hd]]].
+    set (orig := fun k => rOriginalID (find_or_default k m)).
+    assert (SK : StronglySorted (klt orig) (map fst bs)).
+    { apply Sorted_StronglySorted; [apply klt_trans|]. apply sorted_strict; [|exact A].
+      apply StronglySorted_Sorted, expand_sorted_keys. rewrite <- E.
+      apply sorted_ids_kle; [exact Cs|apply sorted_refs_le]. }
+    pose proof (klt_NoDup _ _ SK) as ND.
+    assert (Kin : forall k, In k (map fst bs) -> 0 <= k /\ In k (m_keys m)).
+    { intros k Hk. apply expand_keys_in in Hk. rewrite <- E in Hk. apply in_map_iff in Hk.
+      destruct Hk as [r [<- Hr]]. unfold rel_consistent in Cs. rewrite Forall_forall in Cs.
+      destruct (Cs _ Hr) as [H0 [rel [Hf _]]]. split; [exact H0|]. apply m_find_keys. eauto. }
+    assert (A1 : adjdist (-1 :: map fst bs)).
+    { cbn [adjdist]. split; [|exact A]. destruct bs as [|[k c] bs]; [exact I|]. cbn.
+      assert (0 <= k) by (apply Kin; now left). lia. }
+    unfold rs, all_runs. rewrite (run_loop_blocks bs sorted m (-1) 0 E A1).
+    set (m' := erase_all (map fst bs) m).
+    set (rs2 := map (fun kv => mkRun (Z.of_nat (length sorted)) (fst kv) (snd kv)) m').
+    assert (Tn : total 0 bs = n).
+    { rewrite total_expand, <- E, map_length. lia. }
+    assert (F2 : Forall (fun r : Run T => r_start r = n) rs2).
+    { unfold rs2. rewrite Forall_forall. intros r Hr. apply in_map_iff in Hr. destruct Hr as [kv [<- _]]. exact Ln. }
+    rewrite (ext_runs bs m 0 rs2 n F2 Tn).
+    pose proof (mk_ext_elems bs m 0 ND) as EL. rewrite Forall_forall in EL.
+    assert (Hm' : map_ok m') by (apply erase_all_ok; exact Hm).
+    assert (K2 : map r_key rs2 = m_keys m').
+    { unfold rs2, m_keys. rewrite map_map. reflexivity. }
+    repeat split.
+    - rewrite map_app, mk_runs_keys, K2. apply erase_all_keys_perm; [exact ND|]. intros k Hk. now apply Kin.
+    - apply Forall_app. split.
+      + rewrite <- mk_ext_runs. rewrite Forall_forall. intros r Hr. apply in_map_iff in Hr.
+        destruct Hr as [[r' e] [<- Hin]]. destruct (EL _ Hin) as [Hk [Hr _]]. cbn [fst] in *.
+        rewrite Hr. unfold find_or_default. destruct (Kin _ Hk) as [_ Hk']. apply m_find_keys in Hk'.
+        destruct Hk' as [v Hv]. now rewrite Hv.
+      + unfold rs2. rewrite Forall_forall. intros r Hr. apply in_map_iff in Hr. destruct Hr as [[k v] [<- Hin]].
+        cbn. apply In_m_find; [apply asc_NoDup; exact Hm|]. eapply erase_all_incl; exact Hin.
+    - destruct bs as [|[k c] bs]; cbn [mk_runs app].
+      + destruct rs2 as [|r2 rs2'] eqn:E2.
+        * cbn in Tn. lia.
+        * cbn in Tn. inversion F2; subst. lia.
+      + reflexivity.
+    - apply Forall_app. split.
+      + rewrite Forall_forall. intros re Hin. destruct (EL _ Hin) as [_ [_ [H _]]]. lia.
+      + rewrite Forall_forall. intros re Hin. apply in_map_iff in Hin. destruct Hin as [r [<- Hr]].
+        rewrite Forall_forall in F2. cbn. rewrite (F2 _ Hr). lia.
+    - intros t r Ht.
+      assert (Hid : nth_error (expand bs) t = Some (meshID r)).
+      { rewrite <- E. now apply map_nth_error. }
+      destruct (mk_ext_own bs m 0 t _ Hid) as [run [e [Hin [Hr Hk]]]].
+      exists run, e. split; [apply in_or_app; now left|]. split; [lia|exact Hk].
+    - apply StronglySorted_app.
+      + apply (mk_ext_sorted bs m m 0 ND); [reflexivity|exact SK].
+      + unfold rs2. rewrite Ln, map_map.
+        assert (SSk : StronglySorted Z.lt (m_keys m')) by (apply asc_SS; exact Hm').
+        unfold m_keys in SSk. clear -SSk. generalize n. intros n0. induction m' as [|[k v] m' IH]; cbn; [constructor|].
+        cbn in SSk. inversion SSk as [|? ? S' F]; subst. constructor; [auto|].
+        rewrite Forall_forall in *. intros re Hre. apply in_map_iff in Hre. destruct Hre as [[k2 v2] [<- Hin]].
+        unfold run_order, run_nonempty. cbn [fst snd r_start r_key r_rel]. split; [lia|]. intros _. split; [lia|].
+        apply F. change k2 with (fst (k2, v2)). now apply in_map.
+      + intros a b Ha Hb. destruct (EL _ Ha) as [_ [_ [Hs _]]].
+        apply in_map_iff in Hb. destruct Hb as [r [<- Hr]]. rewrite Forall_forall in F2. specialize (F2 _ Hr).
+        unfold run_order, run_nonempty. cbn [fst snd]. split; [intros _ Hb; lia|intros Hn; lia].
+  Qed.
+End RunFacts.
+
+(* ================================================================ originals *)
+Lemma all_runs_original : forall T (tid : T) id (rel : Relation T) refs,
+  id <> -1 -> Forall (fun r => meshID r = id) refs ->
+  all_runs tid [(id, rel)] refs = [mkRun 0 id rel].
+Proof.
+  intros T tid id rel refs Hid F. unfold all_runs. destruct refs as [|r refs].
+  - reflexivity.
+  - inversion F as [|? ? Hr F']; subst. cbn [run_loop].
+    destruct (meshID r =? -1) eqn:E; [apply Z.eqb_eq in E; contradiction|].
+    cbn [m_find m_erase]. rewrite Z.eqb_refl.
+    pose proof (run_loop_same tid refs [] (@nil (Z * Relation T)) (meshID r) (0 + 1) F') as H.
+    rewrite app_nil_r in H. rewrite H. cbn. reflexivity.
+Qed.
+
+(* ================================================================ IDs: Boolean *)
+Section Ids.
+  Context {T : Type}.
+  Notation rmap := (zmap (Relation T)).
+
+  Lemma m_find_none : forall V (m : zmap V) k, ~ In k (m_keys m) -> m_find k m = None.
+  Proof.
+    intros V m k H. destruct (m_find k m) eqn:E; [|reflexivity].
+    exfalso; apply H. apply m_find_keys. eauto.
+  Qed.
+
+  Lemma find_fold_set : forall V W (h : V -> W) off (l : zmap V) (acc : zmap W) k,
+    NoDup (m_keys l) ->
+    m_find k (fold_left (fun a kv => m_set (fst kv + off) (h (snd kv)) a) l acc) =
+    match m_find (k - off) l with Some v => Some (h v) | None => m_find k acc end.
+  Proof.
+    induction l as [|[k1 v1] l IH]; intros acc k ND; [reflexivity|].
+    cbn [m_keys map fst] in ND. inversion ND as [|? ? Hn ND']; subst.
+    cbn [fold_left fst snd m_find]. rewrite IH by exact ND'. rewrite m_find_set.
+    destruct (k - off =? k1) eqn:E.
+    - apply Z.eqb_eq in E. subst k1. rewrite (m_find_none _ l (k - off) Hn).
+      replace (k - off + off) with k by lia. now rewrite Z.eqb_refl.
+    - destruct (m_find (k - off) l); [reflexivity|].
+      destruct (k =? k1 + off) eqn:E2; [apply Z.eqb_eq in E2; apply Z.eqb_neq in E; lia|reflexivity].
+  Qed.
+
+  Lemma fold_set_ok : forall V W (f : Z * V -> Z) (g : Z * V -> W) (l : list (Z * V)) (acc : zmap W),
+    map_ok acc -> map_ok (fold_left (fun a kv => m_set (f kv) (g kv) a) l acc).
+  Proof. induction l; intros acc H; cbn; [exact H|]. apply IHl. now apply m_set_asc. Qed.
+
+  Definition keys_below (c : Z) (m : rmap) : Prop := Forall (fun k => 0 <= k < c) (m_keys m).
+
+  Lemma fold_left_ext : forall A B (f g : A -> B -> A) l a, (forall a x, f a x = g a x) -> fold_left f l a = fold_left g l a.
+  Proof. induction l; intros a0 H; cbn; [reflexivity|]. rewrite H. now apply IHl. Qed.
+
+  Lemma merge_maps_find : forall counter invertQ (mP mQ : rmap) k,
+    map_ok mP -> map_ok mQ ->
+    m_find k (merge_maps counter invertQ mP mQ []) =
+    match m_find (k - counter) mQ with
+    | Some v => Some (flip_back invertQ v)
+    | None => m_find k mP
+    end.
+  Proof.
+    intros counter invertQ mP mQ k HP HQ. unfold merge_maps.
+    rewrite (find_fold_set _ _ (flip_back invertQ) counter mQ) by (apply asc_NoDup; exact HQ).
+    destruct (m_find (k - counter) mQ); [reflexivity|].
+    pose proof (find_fold_set _ _ (fun v : Relation T => v) 0 mP [] k (asc_NoDup _ HP)) as H.
+    rewrite Z.sub_0_r in H. cbn [m_find] in H.
+    rewrite (fold_left_ext _ _ _ (fun a kv => m_set (fst kv + 0) ((fun v : Relation T => v) (snd kv)) a)).
+    - rewrite H. destruct (m_find k mP); reflexivity.
+    - intros a x. now rewrite Z.add_0_r.
+  Qed.
+
+  Lemma merge_maps_ok : forall counter invertQ (mP mQ : rmap), map_ok (merge_maps counter invertQ mP mQ []).
+  Proof. intros. unfold merge_maps. apply fold_set_ok. apply fold_set_ok. exact I. Qed.
+
+  Lemma keys_below_find : forall c (m : rmap) k v, keys_below c m -> m_find k m = Some v -> 0 <= k < c.
+  Proof.
+    intros c m k v KB H. unfold keys_below in KB. rewrite Forall_forall in KB. apply KB.
+    apply m_find_keys. eauto.
+  Qed.
+
+  (* ids_stay_distinct, Boolean part *)
+  Theorem boolean_ids_distinct : forall counter invertQ (mP mQ : rmap),
+    map_ok mP -> map_ok mQ -> keys_below counter mP -> keys_below counter mQ ->
+    let mR := merge_maps counter invertQ mP mQ [] in
+    map_ok mR /\
+    (forall k v, m_find k mP = Some v -> m_find k mR = Some v) /\
+    (forall k v, m_find k mQ = Some v -> m_find (k + counter) mR = Some (flip_back invertQ v)) /\
+    (forall kp kq, In kp (m_keys mP) -> In kq (m_keys mQ) -> kp <> kq + counter) /\
+    (forall k, In k (m_keys mR) <-> In k (m_keys mP) \/ exists kq, In kq (m_keys mQ) /\ k = kq + counter).
+  Proof.
+    intros counter invertQ mP mQ HP HQ KP KQ mR.
+    split; [apply merge_maps_ok|]. split; [|split; [|split]].
+    - intros k v H. unfold mR. rewrite merge_maps_find by assumption.
+      destruct (m_find (k - counter) mQ) eqn:E; [|exact H].
+      pose proof (keys_below_find _ _ _ _ KP H). pose proof (keys_below_find _ _ _ _ KQ E). lia.
+    - intros k v H. unfold mR. rewrite merge_maps_find by assumption.
+      replace (k + counter - counter) with k by lia. now rewrite H.
+    - intros kp kq Hp Hq. unfold keys_below in *. rewrite Forall_forall in KP, KQ.
+      specialize (KP _ Hp). specialize (KQ _ Hq). lia.
+    - intros k. rewrite m_find_keys. unfold mR. split.
+      + intros [v H]. rewrite merge_maps_find in H by assumption.
+        destruct (m_find (k - counter) mQ) eqn:E.
+        * right. exists (k - counter). split; [apply m_find_keys; eauto|lia].
+        * left. apply m_find_keys; eauto.
+      + intros [H|[kq [H ->]]].
+        * apply m_find_keys in H. destruct H as [v H]. exists v. rewrite merge_maps_find by assumption.
+          destruct (m_find (k - counter) mQ) eqn:E; [|exact H].
+          pose proof (keys_below_find _ _ _ _ KP H). pose proof (keys_below_find _ _ _ _ KQ E). lia.
+        * apply m_find_keys in H. destruct H as [v H]. exists (flip_back invertQ v).
+          rewrite merge_maps_find by assumption. replace (kq + counter - counter) with kq by lia. now rewrite H.
+  Qed.
+
+  (* ================================================================ IDs: IncrementMeshIDs *)
+  Lemma fold_set_append : forall V (vs : list V) n c (acc : zmap V),
+    Forall (fun x => x < c) (m_keys acc) ->
+    fold_left (fun a kv => m_set (fst kv) (snd kv) a) (combine (iota c n) vs) acc = acc ++ combine (iota c n) vs.
+  Proof.
+    intros V vs n. revert vs. induction n; intros vs c acc F; cbn [iota combine fold_left].
+    - now rewrite app_nil_r.
+    - destruct vs as [|v vs]; cbn [combine fold_left]; [now rewrite app_nil_r|].
+      cbn [fst snd]. rewrite m_set_append by exact F. rewrite IHn.
+      + rewrite <- app_assoc. reflexivity.
+      + unfold m_keys. rewrite map_app. apply Forall_app. split.
+        * eapply Forall_impl; [|exact F]. intros; cbn in *; lia.
+        * cbn. constructor; [lia|constructor].
+  Qed.
+
+  Lemma combine_iota_find : forall ks c k id, m_find k (combine ks (iota c (length ks))) = Some id ->
+    exists i, nth_error ks i = Some k /\ id = c + Z.of_nat i /\ (forall j, (j < i)%nat -> nth_error ks j <> Some k).
+  Proof.
+    induction ks as [|k0 ks IH]; intros c k id H; cbn in H; [discriminate|].
+    destruct (k =? k0) eqn:E.
+    - apply Z.eqb_eq in E. inversion H; subst. exists 0%nat. cbn. split; [reflexivity|]. split; [lia|]. intros; lia.
+    - apply IH in H. destruct H as [i [Hn [Hid Hj]]]. exists (Datatypes.S i). cbn. split; [exact Hn|]. split; [lia|].
+      intros j Hjlt. destruct j; cbn.
+      + apply Z.eqb_neq in E. congruence.
+      + apply Hj. lia.
+  Qed.
+
+  Lemma asc_nth_lt : forall l i j a b, asc l -> nth_error l i = Some a -> nth_error l j = Some b -> (i < j)%nat -> a < b.
+  Proof.
+    induction l as [|x l IH]; intros i j a b A Hi Hj Hlt; [destruct i; discriminate|].
+    destruct j; [lia|]. cbn in Hj. destruct i; cbn in Hi.
+    - inversion Hi; subst. pose proof (asc_lb _ _ A) as F. rewrite Forall_forall in F. apply F. eapply nth_error_In; eauto.
+    - eapply IH; eauto. eapply asc_tl; eauto. lia.
+  Qed.
+
+  Lemma map_fst_combine_keys : forall (ks : list Z) c, map fst (combine ks (iota c (length ks))) = ks.
+  Proof. induction ks; intros; cbn; [reflexivity|now rewrite IHks]. Qed.
+  Lemma map_fst_combine_vals : forall V (vs : list V) c, map fst (combine (iota c (length vs)) vs) = iota c (length vs).
+  Proof. induction vs; intros; cbn; [reflexivity|now rewrite IHvs]. Qed.
+
+  Theorem increment_ids_spec : forall counter (m : rmap) refs m' refs' c',
+    map_ok m ->
+    increment_mesh_ids counter m refs = Some (m', refs', c') ->
+    let old2new := combine (m_keys m) (iota counter (length m)) in
+    m' = combine (iota counter (length m)) (map snd m) /\ c' = counter + Z.of_nat (length m) /\ map_ok m' /\
+    Forall2 (fun r r' => m_find (meshID r) old2new = Some (meshID r') /\ originalID r' = originalID r /\
+                         faceID r' = faceID r /\ coplanarID r' = coplanarID r) refs refs' /\
+    (forall k1 k2 id1 id2, m_find k1 old2new = Some id1 -> m_find k2 old2new = Some id2 ->
+        (k1 < k2 <-> id1 < id2) /\ (k1 = k2 <-> id1 = id2) /\ counter <= id1 < c') /\
+    (forall k id, m_find k old2new = Some id -> m_find id m' = m_find k m).
+  Proof.
+    intros counter m refs m' refs' c' Hm H old2new. unfold increment_mesh_ids in H.
+    fold old2new in H.
+    destruct (map_opt _ refs) as [rs|] eqn:E; [|discriminate]. inversion H; subst; clear H.
+    assert (Em : fold_left (fun acc kv => m_set (fst kv) (snd kv) acc) (combine (iota counter (length m)) (map snd m)) []
+                 = combine (iota counter (length m)) (map snd m)).
+    { rewrite fold_set_append; [reflexivity|constructor]. }
+    rewrite Em.
+    assert (Lk : length (m_keys m) = length m) by (unfold m_keys; apply map_length).
+    split; [reflexivity|]. split; [reflexivity|]. split; [|split; [|split]].
+    - unfold map_ok, m_keys. rewrite <- (map_length snd m). rewrite map_fst_combine_vals. apply iota_asc.
+    - clear Em. revert refs' E. induction refs as [|r refs IH]; intros rs E; cbn in E.
+      + inversion E. constructor.
+      + destruct (m_find (meshID r) old2new) eqn:Ef; [|discriminate].
+        destruct (map_opt _ refs) as [rs'|] eqn:E'; [|discriminate]. inversion E; subst.
+        constructor; [cbn; auto|]. now apply IH.
+    - intros k1 k2 id1 id2 H1 H2. unfold old2new in H1, H2. rewrite <- Lk in H1, H2.
+      apply combine_iota_find in H1. apply combine_iota_find in H2.
+      destruct H1 as [i1 [N1 [-> F1]]]. destruct H2 as [i2 [N2 [-> F2]]].
+      assert (i1 < length (m_keys m))%nat by (apply nth_error_Some; congruence).
+      split; [|split; [|lia]].
+      + split; intros Hlt.
+        * destruct (Nat.lt_ge_cases i1 i2) as [Hc|Hc]; [lia|].
+          destruct (Nat.eq_dec i1 i2) as [->|Hne]; [rewrite N1 in N2; inversion N2; lia|].
+          assert (k2 < k1) by (eapply (asc_nth_lt (m_keys m) i2 i1); eauto; lia). lia.
+        * assert (i1 < i2)%nat by lia. eapply (asc_nth_lt (m_keys m) i1 i2); eauto.
+      + split; intros Heq.
+        * subst k2. destruct (Nat.lt_trichotomy i1 i2) as [Hc|[Hc|Hc]]; [|lia|].
+          -- exfalso. eapply F2; eauto.
+          -- exfalso. eapply F1; eauto.
+        * assert (i1 = i2) by lia. subst. rewrite N1 in N2. now inversion N2.
+    - intros k id H. unfold old2new in H. clear Em E Lk old2new.
+      unfold m_keys in H. revert H. generalize counter. induction m as [|[k0 v0] m IH]; intros c H; cbn in H; [discriminate|].
+      cbn [length iota map combine snd m_find].
+      destruct (k =? k0) eqn:E.
+      + inversion H; subst. now rewrite Z.eqb_refl.
+      + assert (A : c < id).
+        { rewrite <- (map_length fst m) in H. apply combine_iota_find in H. destruct H as [i [_ [-> _]]]. lia. }
+        destruct (id =? c) eqn:E2; [apply Z.eqb_eq in E2; lia|].
+        apply IH; [eapply asc_tl; exact Hm|exact H].
+  Qed.
+
+  Lemma map_opt_some : forall A B (f : A -> option B) l, Forall (fun a => f a <> None) l -> exists l', map_opt f l = Some l'.
+  Proof.
+    induction l as [|a l IH]; intros F; [exists []; reflexivity|]. inversion F; subst.
+    destruct (IH H2) as [l' E]. cbn. destruct (f a) eqn:Ea; [|congruence]. rewrite E. eauto.
+  Qed.
+
+  (* defined whenever every triangle's meshID is a key of the map *)
+  Lemma increment_defined : forall counter (m : rmap) refs,
+    Forall (fun r => In (meshID r) (m_keys m)) refs -> exists res, increment_mesh_ids counter m refs = Some res.
+  Proof.
+    intros counter m refs F. unfold increment_mesh_ids.
+    destruct (map_opt_some _ _ (fun r => match m_find (meshID r) (combine (m_keys m) (iota counter (length m))) with
+                                         | Some id => Some (set_meshID r id) | None => None end) refs) as [l' E].
+    - eapply Forall_impl; [|exact F]. intros r Hr. cbn in Hr.
+      assert (H : In (meshID r) (m_keys (combine (m_keys m) (iota counter (length m))))).
+      { unfold m_keys at 1. rewrite <- (map_length fst m). fold (m_keys m). now rewrite map_fst_combine_keys. }
+      apply m_find_keys in H. destruct H as [v Hv]. rewrite Hv. discriminate.
+    - rewrite E. eauto.
+  Qed.
+End Ids.
+
+(* Compose: per-node offsets i * snapshot keep the nodes' key ranges apart *)
+Lemma compose_offsets_disjoint : forall snapshot i j k1 k2,
+  0 <= i -> 0 <= j -> 0 <= k1 < snapshot -> 0 <= k2 < snapshot ->
+  k1 + i * snapshot = k2 + j * snapshot -> i = j /\ k1 = k2.
+Proof. intros. assert (i = j) by nia. subst. lia. Qed.
+
+(* ================================================================ transforms *)
+Lemma v3_eq : forall a b, vx a = vx b -> vy a = vy b -> vz a = vz b -> a = b.
+Proof. intros [] []; cbn; intros; subst; reflexivity. Qed.
+Lemma m34_eq : forall a b, c0 a = c0 b -> c1 a = c1 b -> c2 a = c2 b -> c3 a = c3 b -> a = b.
+Proof. intros [] []; cbn; intros; subst; reflexivity. Qed.
+
+Ltac m34simp := cbn [vx vy vz c0 c1 c2 c3 m34apply4 m34mul v3add v3scale m34apply m34id].
+Lemma m34apply4_mul : forall a b v w, m34apply4 (m34mul a b) v w = m34apply4 a (m34apply4 b v w) w.
+Proof. intros [[] [] [] []] [[] [] [] []] [] w. apply v3_eq; m34simp; ring. Qed.
+Lemma m34apply_mul : forall a b p, m34apply (m34mul a b) p = m34apply a (m34apply b p).
+Proof. intros. unfold m34apply. apply m34apply4_mul. Qed.
+Lemma m34mul_assoc : forall a b c, m34mul a (m34mul b c) = m34mul (m34mul a b) c.
+Proof. intros [[] [] [] []] [[] [] [] []] [[] [] [] []]. apply m34_eq; apply v3_eq; m34simp; ring. Qed.
+Lemma m34mul_id_l : forall a, m34mul m34id a = a.
+Proof. intros [[] [] [] []]. apply m34_eq; apply v3_eq; m34simp; ring. Qed.
+Lemma m34apply_id : forall p, m34apply m34id p = p.
+Proof. intros []. apply v3_eq; m34simp; ring. Qed.
+Lemma v3eqb_eq : forall a b, v3eqb a b = true -> a = b.
+Proof. intros a b H. unfold v3eqb in H. rewrite !andb_true_iff, !Z.eqb_eq in H. apply v3_eq; tauto. Qed.
+Lemma m34eqb_eq : forall a b, m34eqb a b = true -> a = b.
+Proof. intros a b H. unfold m34eqb in H. rewrite !andb_true_iff in H. apply m34_eq; apply v3eqb_eq; tauto. Qed.
+
+Definition same_meta (r r' : Relation M34) : Prop :=
+  rOriginalID r' = rOriginalID r /\ rBackSide r' = rBackSide r /\ rHasNormals r' = rHasNormals r.
+
+Lemma impl_transform_find : forall t m k rel, m_find k m = Some rel ->
+  exists rel', m_find k (impl_transform t m) = Some rel' /\ same_meta rel rel' /\
+               forall p, m34apply (rTransform rel') p = m34apply t (m34apply (rTransform rel) p).
+Proof.
+  intros t m k rel H. unfold impl_transform. destruct (m34eqb t m34id) eqn:E.
+  - apply m34eqb_eq in E. subst t. exists rel. split; [exact H|]. split; [repeat split|].
+    intros p. now rewrite m34apply_id.
+  - exists (with_transform rel (m34mul t (rTransform rel))). split; [|split; [repeat split|]].
+    + induction m as [|[k' v'] m IH]; cbn in *; [discriminate|].
+      destruct (k =? k'); [inversion H; subst; reflexivity|auto].
+    + intros p. cbn. apply m34apply_mul.
+Qed.
+
+Lemma impl_transform_keys : forall t m, m_keys (impl_transform t m) = m_keys m.
+Proof.
+  intros t m. unfold impl_transform. destruct (m34eqb t m34id); [reflexivity|].
+  unfold m_keys. rewrite map_map. reflexivity.
+Qed.
+
+(* relation_transform_compose *)
+Theorem transform_chain : forall ts m k rel, m_find k m = Some rel ->
+  exists rel', m_find k (fold_left (fun a t => impl_transform t a) ts m) = Some rel' /\ same_meta rel rel' /\
+               forall p, m34apply (rTransform rel') p = fold_left (fun q t => m34apply t q) ts (m34apply (rTransform rel) p).
+Proof.
+  induction ts as [|t ts IH]; intros m k rel H.
+  - exists rel. split; [exact H|]. split; [repeat split|reflexivity].
+  - cbn [fold_left]. destruct (impl_transform_find t m k rel H) as [r1 [H1 [M1 A1]]].
+    destruct (IH _ _ _ H1) as [r2 [H2 [M2 A2]]]. exists r2. split; [exact H2|]. split.
+    + unfold same_meta in *. intuition congruence.
+    + intros p. rewrite A2, A1. reflexivity.
+Qed.
+
+(* Compose: the entry of node i under key k is found at k + i*snapshot with the
+   node's lazy transform applied on the left *)
+Lemma compose_from_keeps : forall nodes i snapshot acc k v,
+  0 < snapshot -> 0 <= i -> Forall (fun nd => keys_below snapshot (snd (fst nd))) nodes ->
+  k < i * snapshot -> m_find k acc = Some v ->
+  m_find k (fst (compose_from i snapshot nodes acc)) = Some v.
+Proof.
+  induction nodes as [|[[t m] refs] nodes IH]; intros i snapshot acc k v Hs Hi F Hk H; [exact H|].
+  cbn [compose_from]. inversion F as [|? ? Fm F']; subst. cbn [fst snd] in Fm.
+  destruct (compose_from (i + 1) snapshot nodes _) as [accf refsf] eqn:E. cbn [fst].
+  change accf with (fst (accf, refsf)). rewrite <- E. apply IH; auto; [lia|nia|].
+  clear E IH F. revert acc H. unfold keys_below in Fm. induction m as [|[k1 v1] m IHm]; intros acc H; [exact H|].
+  cbn [fold_left]. cbn [m_keys map fst] in Fm. inversion Fm; subst. apply IHm; [assumption|].
+  rewrite m_find_set. cbn [fst]. destruct (k =? k1 + i * snapshot) eqn:E; [apply Z.eqb_eq in E; lia|exact H].
+Qed.
+
+Definition node_rel (t : M34) (rel : Relation M34) : Relation M34 :=
+  if m34eqb t m34id then rel else with_transform rel (m34mul t (rTransform rel)).
+
+Theorem compose_find : forall nodes i0 snapshot acc j t m refs k rel,
+  0 < snapshot -> 0 <= i0 -> Forall (fun nd => map_ok (snd (fst nd)) /\ keys_below snapshot (snd (fst nd))) nodes ->
+  nth_error nodes j = Some (t, m, refs) -> m_find k m = Some rel ->
+  m_find (k + (i0 + Z.of_nat j) * snapshot) (fst (compose_from i0 snapshot nodes acc)) = Some (node_rel t rel).
+Proof.
+  induction nodes as [|[[t0 m0] refs0] nodes IH]; intros i0 snapshot acc j t m refs k rel Hs Hi F Hn Hf.
+  - destruct j; discriminate.
+  - inversion F as [|? ? [Hok Hkb] F']; subst. cbn [fst snd] in *.
+    cbn [compose_from]. destruct (compose_from (i0 + 1) snapshot nodes _) as [accf refsf] eqn:E. cbn [fst].
+    change accf with (fst (accf, refsf)). rewrite <- E. destruct j as [|j].
+    + cbn in Hn. inversion Hn; subst. rewrite Z.add_0_r.
+      pose proof (keys_below_find _ _ _ _ Hkb Hf) as Hk.
+      apply compose_from_keeps; auto; [lia| |nia|].
+      * eapply Forall_impl; [|exact F']. intros nd [_ H]; exact H.
+      * pose proof (find_fold_set _ _ (node_rel t) (i0 * snapshot) m acc (k + i0 * snapshot) (asc_NoDup _ Hok)) as H.
+        replace (k + i0 * snapshot - i0 * snapshot) with k in H by lia. rewrite Hf in H.
+        rewrite <- H. f_equal.
+    + cbn in Hn. replace (k + (i0 + Z.of_nat (S j)) * snapshot) with (k + (i0 + 1 + Z.of_nat j) * snapshot) by lia.
+      eapply IH; eauto. lia.
+Qed.
+
+(* ================================================================ back side parity *)
+Lemma fold_xorb_acc : forall l b, fold_left xorb l b = xorb b (fold_left xorb l false).
+Proof.
+  induction l as [|x l IHl]; intros b; cbn [fold_left]; [now rewrite xorb_false_r|].
+  rewrite (IHl (xorb b x)), (IHl (xorb false x)). destruct b, x, (fold_left xorb l false); reflexivity.
+Qed.
+
+Lemma flip_chain : forall T (events : list bool) (rel : Relation T),
+  let r := fold_left (fun r e => flip_back e r) events rel in
+  rBackSide r = xorb (rBackSide rel) (fold_left xorb events false) /\
+  rOriginalID r = rOriginalID rel /\ rTransform r = rTransform rel /\ rHasNormals r = rHasNormals rel.
+Proof.
+  intros T events. induction events as [|e events IH]; intros rel; cbn [fold_left].
+  - cbn. rewrite xorb_false_r. auto.
+  - destruct (IH (flip_back e rel)) as [B [O [Tr N]]]. cbn zeta in *. rewrite B, O, Tr, N. cbn [flip_back rBackSide rOriginalID rTransform rHasNormals].
+    split; [|auto]. rewrite (fold_xorb_acc events (xorb false e)).
+    destruct (rBackSide rel), e, (fold_left xorb events false); reflexivity.
+Qed.
+
+(* ================================================================ GetBarycentric over Q *)
+Local Open Scope Q_scope.
+Ltac q3unfold := unfold tri_crossP, bary_crossPv, tri_edges, q3nth, next3, q3cross, q3dot, q3sub; cbn [qx qy qz].
+
+Lemma bary_sum_identity : forall p0 p1 p2 v,
+  let tri := (p0, p1, p2) in let N := tri_crossP tri in
+  q3dot (bary_crossPv tri v 0) N + q3dot (bary_crossPv tri v 1) N + q3dot (bary_crossPv tri v 2) N == q3dot N N.
+Proof. intros [] [] [] []. q3unfold. ring. Qed.
+
+Lemma bary_pos_identity : forall p0 p1 p2 v (f : Q3 -> Q), (f = qx \/ f = qy \/ f = qz) ->
+  let tri := (p0, p1, p2) in let N := tri_crossP tri in
+  q3dot (bary_crossPv tri v 0) N * f p0 + q3dot (bary_crossPv tri v 1) N * f p1 + q3dot (bary_crossPv tri v 2) N * f p2
+  == q3dot N N * f v - q3dot N (q3sub v p0) * f N.
+Proof. intros [] [] [] [] f [->|[->| ->]]; q3unfold; ring. Qed.
+
+Theorem barycentric_affine_main : forall p0 p1 p2 v tol,
+  let tri := (p0, p1, p2) in let tol2 := tol * tol in let N := tri_crossP tri in
+  near_vert tri v tol2 0 = false -> near_vert tri v tol2 1 = false -> near_vert tri v tol2 2 = false ->
+  Qltb (edge_d2 tri (long_side tri)) tol2 = false ->
+  Qltb (edge_d2 tri (long_side tri) * tol2) (q3dot N N) = true ->
+  edge_snapped tri v tol2 0 = false -> edge_snapped tri v tol2 1 = false -> edge_snapped tri v tol2 2 = false ->
+  ~ q3dot N N == 0 ->
+  q3dot N (q3sub v p0) == 0 ->
+  let '(a, b, c) := get_barycentric v tri tol in
+  a + b + c == 1 /\
+  (forall f : Q3 -> Q, (f = qx \/ f = qy \/ f = qz) -> a * f p0 + b * f p1 + c * f p2 == f v).
+Proof.
+  intros p0 p1 p2 v tol tri tol2 N n0 n1 n2 Hpt Htri s0 s1 s2 Hnd Hplane.
+  unfold get_barycentric. fold tri. fold tol2. fold N. rewrite n0, n1, n2, Hpt, Htri, s0, s1, s2.
+  pose proof (bary_sum_identity p0 p1 p2 v) as S. cbv zeta in S. fold tri in S. fold N in S.
+  assert (P := fun f Hf => bary_pos_identity p0 p1 p2 v f Hf). cbv zeta in P. fold tri in P. fold N in P.
+  set (u0 := q3dot (bary_crossPv tri v 0) N) in *.
+  set (u1 := q3dot (bary_crossPv tri v 1) N) in *.
+  set (u2 := q3dot (bary_crossPv tri v 2) N) in *.
+  assert (Hs : ~ u0 + u1 + u2 == 0) by (rewrite S; exact Hnd).
+  split.
+  - field. exact Hs.
+  - intros f Hf. specialize (P f Hf). rewrite Hplane in P.
+    setoid_replace (u0 / (u0 + u1 + u2) * f p0 + u1 / (u0 + u1 + u2) * f p1 + u2 / (u0 + u1 + u2) * f p2)
+      with ((u0 * f p0 + u1 * f p1 + u2 * f p2) / (u0 + u1 + u2)) by (field; exact Hs).
+    rewrite P, S. field. exact Hnd.
+Qed.
+
+(* every affine property field is reproduced; absent channels are zero *)
+Definition affine_field (ga gb gc gd : Q) (p : Q3) : Q := ga * qx p + gb * qy p + gc * qz p + gd.
+
+Lemma interp_affine : forall (a b c : Q) p0 p1 p2 v ga gb gc gd oldNumProp p,
+  a + b + c == 1 ->
+  (forall f : Q3 -> Q, (f = qx \/ f = qy \/ f = qz) -> a * f p0 + b * f p1 + c * f p2 == f v) ->
+  interp_channel (a, b, c) oldNumProp p
+     (affine_field ga gb gc gd p0, affine_field ga gb gc gd p1, affine_field ga gb gc gd p2)
+  == if (p <? oldNumProp)%nat then affine_field ga gb gc gd v else 0.
+Proof.
+  intros a b c p0 p1 p2 v ga gb gc gd old p Hs Hp. unfold interp_channel.
+  destruct (p <? old)%nat; [|reflexivity]. unfold affine_field.
+  setoid_replace (a * (ga * qx p0 + gb * qy p0 + gc * qz p0 + gd) + b * (ga * qx p1 + gb * qy p1 + gc * qz p1 + gd) +
+                  c * (ga * qx p2 + gb * qy p2 + gc * qz p2 + gd))
+    with (ga * (a * qx p0 + b * qx p1 + c * qx p2) + gb * (a * qy p0 + b * qy p1 + c * qy p2) +
+          gc * (a * qz p0 + b * qz p1 + c * qz p2) + gd * (a + b + c)) by ring.
+  rewrite (Hp qx), (Hp qy), (Hp qz), Hs by auto. ring.
+Qed.
+
+(* snapped branches *)
+Lemma barycentric_vertex_snap : forall v tri tol,
+  let tol2 := tol * tol in
+  (near_vert tri v tol2 0 = true -> get_barycentric v tri tol = (1, 0, 0)) /\
+  (near_vert tri v tol2 0 = false -> near_vert tri v tol2 1 = true -> get_barycentric v tri tol = (0, 1, 0)) /\
+  (near_vert tri v tol2 0 = false -> near_vert tri v tol2 1 = false -> near_vert tri v tol2 2 = true ->
+     get_barycentric v tri tol = (0, 0, 1)).
+Proof.
+  intros v tri tol tol2. unfold get_barycentric. fold tol2.
+  split; [|split]; intros; repeat match goal with H : _ = _ |- _ => rewrite H; clear H end; reflexivity.
+Qed.
+
+(* edge snap inside the triangle branch: the snapped coordinate is exactly 0 and the
+   three still sum to 1 (a combination of the edge's two corners when one is snapped) *)
+Lemma barycentric_edge_snap : forall p0 p1 p2 v tol i,
+  let tri := (p0, p1, p2) in let tol2 := tol * tol in let N := tri_crossP tri in
+  near_vert tri v tol2 0 = false -> near_vert tri v tol2 1 = false -> near_vert tri v tol2 2 = false ->
+  Qltb (edge_d2 tri (long_side tri)) tol2 = false ->
+  Qltb (edge_d2 tri (long_side tri) * tol2) (q3dot N N) = true ->
+  (i < 3)%nat -> edge_snapped tri v tol2 i = true ->
+  let u j := if edge_snapped tri v tol2 j then 0 else q3dot (bary_crossPv tri v j) N in
+  ~ u 0%nat + u 1%nat + u 2%nat == 0 ->
+  qnth (get_barycentric v tri tol) i == 0 /\
+  (let '(a, b, c) := get_barycentric v tri tol in a + b + c == 1).
+Proof.
+  intros p0 p1 p2 v tol i tri tol2 N n0 n1 n2 Hpt Htri Hi Hsnap u Hs.
+  unfold get_barycentric. fold tri. fold tol2. fold N. rewrite n0, n1, n2, Hpt, Htri.
+  cbv zeta. unfold u in Hs.
+  set (a0 := if edge_snapped tri v tol2 0 then 0 else q3dot (bary_crossPv tri v 0) N) in *.
+  set (a1 := if edge_snapped tri v tol2 1 then 0 else q3dot (bary_crossPv tri v 1) N) in *.
+  set (a2 := if edge_snapped tri v tol2 2 then 0 else q3dot (bary_crossPv tri v 2) N) in *.
+  split.
+  - destruct i as [|[|[|i]]]; try lia; cbn [qnth].
+    + assert (H : a0 == 0) by (unfold a0; rewrite Hsnap; reflexivity). clearbody a0 a1 a2.
+      unfold Qdiv. rewrite H. ring.
+    + assert (H : a1 == 0) by (unfold a1; rewrite Hsnap; reflexivity). clearbody a0 a1 a2.
+      unfold Qdiv. rewrite H. ring.
+    + assert (H : a2 == 0) by (unfold a2; rewrite Hsnap; reflexivity). clearbody a0 a1 a2.
+      unfold Qdiv. rewrite H. ring.
+  - clearbody a0 a1 a2. field. exact Hs.
+Qed.
+
+(* degenerate (needle) branch: the long side's own corner gets 0, the other two sum to 1 *)
+Lemma barycentric_line : forall p0 p1 p2 v tol,
+  let tri := (p0, p1, p2) in let tol2 := tol * tol in let N := tri_crossP tri in
+  near_vert tri v tol2 0 = false -> near_vert tri v tol2 1 = false -> near_vert tri v tol2 2 = false ->
+  Qltb (edge_d2 tri (long_side tri)) tol2 = false ->
+  Qltb (edge_d2 tri (long_side tri) * tol2) (q3dot N N) = false ->
+  ~ edge_d2 tri (long_side tri) == 0 ->
+  qnth (get_barycentric v tri tol) (long_side tri) == 0 /\
+  (let '(a, b, c) := get_barycentric v tri tol in a + b + c == 1).
+Proof.
+  intros p0 p1 p2 v tol tri tol2 N n0 n1 n2 Hpt Htri Hd.
+  unfold get_barycentric. fold tri. fold tol2. fold N. rewrite n0, n1, n2, Hpt, Htri. cbv zeta.
+  set (al := q3dot (q3sub v (q3nth tri (next3 (long_side tri)))) (q3nth (tri_edges tri) (long_side tri)) / edge_d2 tri (long_side tri)).
+  destruct (long_side tri) as [|[|l]]; cbn [next3 qset qnth]; split; try reflexivity; ring.
+Qed.
